@@ -1,4 +1,5 @@
 import Driver.Machine
+import Driver.Persist
 import CrdtModel.Spec.MerkleReg
 /-! `merkle`: `MerkleReg` over abstract hashes.  The abstract hash of a node is its script NAME (as the list of
 its character codes, ordered like Rust strings); the model's value type is `value × own name` and the hash
@@ -55,6 +56,15 @@ def merkleValidate (s : MReg) (op : MNode) : String :=
   | .ok _ => if missing.isEmpty then "ok" else "ok-BUT-missing:" ++ names
   | .error (.missingChild h) => "missing:" ++ names ++ " first=" ++ (if missing.head? = some h then "ok" else "BAD")
 
+/-- C19: hashes are abstract, so a hash is written as `"#<name>"` and the model's value (`u64` value × own name) as
+`[value,"#<name>"]`; the harness rewrites the real text the same way (harness/src/sut/merkle.rs `canon_reg`) -/
+def mhCodec : Codec MH :=
+  ⟨fun h => .ok (.str ("#" ++ mhName h)),
+   fun j => match j with
+     | .str s => if s.startsWith "#" then some (mhOf (s.drop 1).toString) else none
+     | _ => none⟩
+def mvCodec : Codec MV := Codec.pair Codec.nat mhCodec
+
 def merkleOps : CrdtOps MReg MNode where
   init := MerkleReg.init
   gen := fun s _ args => match args with
@@ -76,6 +86,8 @@ def merkleOps : CrdtOps MReg MNode where
   validateOp := merkleValidate
   validateMerge := fun _ _ => "ok"
   eq := some (fun a b => some (decide (a = b)))
+  persist := some (persistWith (merkleCodec mhCodec mvCodec))
+  persistOp := some (persistWith (nodeCodec mhCodec mvCodec))
   -- C16 for MerkleReg: Ok iff every child is the hash of a VISIBLE received node (C15.validate_op_ok_iff_spec)
   vSpec := fun _ K op =>
     let vis := (MerkleSpec.visibleList mhash K).map mhash
